@@ -202,7 +202,13 @@ class NumpyModel:
                 return b.is_none if op == "is" else mk_not(b.is_none)
             an, bn = a is NONE, b is NONE
             if not (an or bn):
-                raise Unsupported("`is` between non-None values")
+                if a is b:
+                    r0 = True
+                else:
+                    # identity of two values the engine holds separately is unknown (they may alias): fresh boolean
+                    r0 = z3.Bool(fresh_name("same_object"))
+                    self.note_assumption("object identity (`is`) between distinct symbolic values is left unconstrained")
+                return r0 if op == "is" else mk_not(r0)
             r = (an and bn)
             return r if op == "is" else (not r)
         from .values import OptV as _OptV
@@ -473,8 +479,11 @@ class NumpyModel:
                     continue
                 self.oblige(st, num_cmp("==", vd, tgt_lens[off + d]), "lib", "store: value shape matches target shape", node)
         kind = a.kind
-        if kind == "int" and ((isinstance(val, Arr) and val.kind == "real") or (not isinstance(val, Arr) and is_realv(val))):
-            raise Unsupported("storing a real into an integer array (silent truncation in numpy)")
+        if kind == "int" and a.nanmask is None and ((isinstance(val, Arr) and val.kind == "real") or (not isinstance(val, Arr) and is_realv(val))):
+            # numpy truncates silently: the stored value is not the value computed -> a failed obligation, then an unconstrained integer
+            self.oblige(st, False, "lib", "store of a real value into an integer-typed array (silent truncation)", node)
+            trunc = sym_array("trunc", a.shape, "int", own=True)
+            return trunc
         new_nan = None
         if a.nanmask is not None:
             from .values import OptV
